@@ -60,6 +60,12 @@ CONTRACTS = [
                   'inv': 'inv(self)'},
          raises={'cls': 'issubclass(exc, TimeoutError) or issubclass(exc, ConnectionError) or issubclass(exc, OSError)',
                  'nothing_lost': 'JOIN(rx) == P + self._rxbuffer', 'inv': 'inv(self)'}),
+    # request / reply pairing of the line communicator (bounded stand-in only; virtual time, scripted device): the reply returned
+    # belongs to the command just sent - data that arrived before the command was sent is never returned as its reply
+    dict(key='StringIO.communicate', vc=False, file='frappy/io.py', func='StringIO.communicate', serves=['C16'], self_type='StringIO',
+         requires=[],
+         ensures={'own_reply': 'result == expected_reply', 'waited': 'first_send_time.conn.sent[0][0] >= call_time + self.wait_before - 1e-9'},
+         raises={'only_if_expected': 'expected_reply is None'}),
     dict(key='AsynConn.readline', vc=False, file='frappy/lib/asynconn.py', func='AsynConn.readline', serves=['C16'],
          self_type='AsynConn', requires=[],
          ensures={'line': 'LineTaken(self, old(self._rxbuffer), old(rx), rx, result)'},
